@@ -55,6 +55,8 @@ def cast_types(F, fn):
 
 
 def run(F, res, tier):
+    from rules import c07 as _c07alt
+    _c07alt.binders_of_alternatives_are_one_variable(F, res, rule="R13")   # every binder of the variable is among its references
     from rules import c14 as _c14u
     _c14u.text_positions_are_counted_in_bytes(F, res, rule="R12", crates=('ide',))   # engine U: the range the usage search looks at ends at the last byte of the file, not at its character count
     # ---- R1
